@@ -83,6 +83,7 @@ def main(ctx: Ctx) -> int:
         for code, ty in ((13, 300), (14, 204)):
             cases.append(("leeds", rec([r1, r2], ["G" + "X"] if False else ["GCO"], code, rng.choice([0.0, 500.0, 1000.0, 2.5])), ty, r1, None, "", (r1, r2)))
     traces = []
+    cases = list(cases) + list(cases[:12])        # second pass: the first cases again at the end of the run (same process)
     for ci, (fmt, rc, ty, spname, surfname, grp, two) in enumerate(cases):
         f = d / f"{ci}.txt"
         line = encoders.ENCODERS[fmt](rc)
